@@ -6,6 +6,7 @@ package dragonboat
 import (
 	"encoding/json"
 	"fmt"
+	"os"
 	"runtime"
 	"sort"
 	"strconv"
@@ -14,14 +15,32 @@ import (
 	"sync/atomic"
 
 	"github.com/lni/dragonboat/v4/internal/rsm"
+	"github.com/lni/dragonboat/v4/internal/server"
 	"github.com/lni/dragonboat/v4/internal/verifkit"
 	"github.com/lni/dragonboat/v4/internal/verifkit/journalfs"
 	"github.com/lni/dragonboat/v4/internal/verifkit/memlogdb"
 	"github.com/lni/dragonboat/v4/internal/vfs"
 	"github.com/lni/dragonboat/v4/logger"
+	"github.com/lni/dragonboat/v4/tools"
 )
 
 func c16SetLevel(n string) { logger.GetLogger(n).SetLevel(logger.CRITICAL) }
+
+// c16Logger is a silent logger: Panicf panics with the message (as the
+// default logger does) without printing it; thousands of expected panics
+// (crash images that must not start, injected faults) would flood stderr.
+type c16Logger struct{}
+
+func (c16Logger) SetLevel(logger.LogLevel)         {}
+func (c16Logger) Debugf(string, ...interface{})    {}
+func (c16Logger) Infof(string, ...interface{})     {}
+func (c16Logger) Warningf(string, ...interface{})  {}
+func (c16Logger) Errorf(string, ...interface{})    {}
+func (c16Logger) Panicf(f string, a ...interface{}) { panic(fmt.Sprintf(f, a...)) }
+
+func init() {
+	logger.SetLoggerFactory(func(string) logger.ILogger { return c16Logger{} })
+}
 
 const (
 	c16SnapDir = "/c16/snap"
@@ -74,7 +93,17 @@ type c16Run struct {
 	valid bool   // race: the requested insertion points exist and are legal
 	why   string
 	// error mode
-	stage string
+	stage     string
+	baseMut   int    // mutating FS operations before the enumeration starts
+	afterBoot func() // called once the first boot is done
+}
+
+func (w *c16Run) booted() {
+	w.from = w.jfs.Len()
+	w.baseMut = w.jfs.Mutations()
+	if w.afterBoot != nil {
+		w.afterBoot()
+	}
 }
 
 type c16Abort struct{ why string }
@@ -112,8 +141,8 @@ func (w *c16Run) mkdirs() {
 func (w *c16Run) boot() {
 	w.mkdirs()
 	db := &c16DB{DB: memlogdb.New(), log: w.log}
-	w.rep = c16Boot(c16Self, w.cfg.Kind, w.hook, db, c16SnapDir, c16SMDir, func(l string) { w.jfs.Mark(l) })
-	w.from = w.jfs.Len()
+	w.rep = c16BootSettled(c16Self, w.cfg.Kind, w.hook, db, c16SnapDir, c16SMDir, func(l string) { w.jfs.Mark(l) })
+	w.booted()
 }
 
 func (w *c16Run) feed(hi, commit uint64) {
@@ -364,7 +393,7 @@ func (r c16Recovered) String() string {
 
 // c16Startup runs the start-up path on an image and checks the property.
 // With rec != nil the FS operations of the start-up are journaled there.
-func c16Startup(cfg c16Cfg, mem *vfs.MemFS, db *memlogdb.DB, meta *c16Meta, L uint64, record bool) (got c16Recovered, prob *c16Prob, recj *journalfs.Journal, recEnd int) {
+func c16Startup(cfg c16Cfg, mem *vfs.MemFS, db *memlogdb.DB, meta *c16Meta, L uint64, record bool, retry func() string) (got c16Recovered, prob *c16Prob, recj *journalfs.Journal, recEnd int) {
 	jfs := journalfs.NewOn(mem) // sorted List, and the recovery journal for depth 2
 	snapdir, smdir := c16SnapDir, c16SMDir
 	if cfg.WL == "import" {
@@ -372,13 +401,29 @@ func c16Startup(cfg c16Cfg, mem *vfs.MemFS, db *memlogdb.DB, meta *c16Meta, L ui
 	}
 	var rep *c16Rep
 	if pan := verifkit.Catch(func() {
-		rep = c16Boot(c16Self, cfg.Kind, jfs, db, snapdir, smdir, nil)
+		rep = c16Boot(c16Self, cfg.Kind, &c16HookFS{IFS: jfs}, db, snapdir, smdir, nil)
 	}); pan != "" {
 		cl := "startup-panicked"
 		if strings.Contains(pan, "c16:") {
 			cl = "harness-" + cl
 		}
-		return got, &c16Prob{cl, "start-up (processOrphans, replayLog, initial Recover) panicked: " + c16Short(pan)}, nil, 0
+		detail := "start-up (processOrphans, replayLog, initial Recover) panicked: " + c16Short(pan)
+		switch {
+		case strings.Contains(pan, "file does not exist"):
+			cl += ":snapshot-file-missing"
+		case strings.Contains(pan, "corrupted") || strings.Contains(pan, "checksum") || strings.Contains(pan, "invalid"):
+			cl += ":snapshot-file-invalid"
+		}
+		if cfg.WL == "import" && meta.Phase == "import" && retry != nil {
+			// what an operator would do: run the import again, then start
+			if msg := retry(); msg == "" {
+				detail += " (running tools.ImportSnapshot again on that image and starting afterwards succeeds)"
+			} else {
+				cl = "startup-panicked-and-import-retry-fails"
+				detail += "; running tools.ImportSnapshot again on that image: " + msg
+			}
+		}
+		return got, &c16Prob{cl, detail}, nil, 0
 	}
 	recEnd = jfs.Len()
 	if record {
@@ -432,6 +477,12 @@ func c16Startup(cfg c16Cfg, mem *vfs.MemFS, db *memlogdb.DB, meta *c16Meta, L ui
 	// --- the state is no older than the recorded snapshot / anything acknowledged
 	if got.Applied < rec.Index {
 		return got, &c16Prob{"state-older-than-recorded-snapshot", fmt.Sprintf("applied index %d after the initial recover, recorded snapshot %d", got.Applied, rec.Index)}, recj, recEnd
+	}
+	if cfg.WL == "import" && rec.Imported {
+		// tools.ImportSnapshot rewinds the replica to the imported snapshot by
+		// design ("all proposals more recent than the state of the snapshot are
+		// lost"): earlier acknowledgements are void
+		meta = &c16Meta{AckImport: meta.AckImport}
 	}
 	if meta.AckSnap > rec.Index {
 		return got, &c16Prob{"acked-snapshot-not-recorded", fmt.Sprintf("snapshot %d was acknowledged to the user, the log store records %d", meta.AckSnap, rec.Index)}, recj, recEnd
@@ -560,7 +611,29 @@ func (cc *c16Case) check(wantHash *uint64, record bool) (got c16Recovered, f *c1
 		*wantHash = verifkit.Hash64(journalfs.Dump(mem, "/"))
 	}
 	db := c16BuildDB(cc.Ops, meta.DBN)
-	got, prob, recj, recEnd := c16Startup(cc.Cfg, mem, db, meta, cc.L, record)
+	var retry func() string
+	if cc.Cfg.WL == "import" {
+		retry = func() string {
+			mem2 := cc.build()
+			db2 := c16BuildDB(cc.Ops, meta.DBN)
+			fs2 := &c16HookFS{IFS: journalfs.NewOn(mem2)}
+			var ierr error
+			if pan := verifkit.Catch(func() {
+				ierr = tools.ImportSnapshot(c16NHConfig(fs2, &c16DB{DB: db2, log: &c16Log{}}), fs2.PathJoin(c16ExportDir, server.GetSnapshotDirName(12)), c16Peers(), c16Self)
+			}); pan != "" {
+				return "panicked: " + c16Short(pan)
+			}
+			if ierr != nil {
+				return "failed: " + c16Short(ierr.Error())
+			}
+			m2 := &c16Meta{AckImport: 12, Phase: "after-retry"}
+			if _, p2, _, _ := c16Startup(cc.Cfg, mem2, db2, m2, cc.L, false, nil); p2 != nil {
+				return "succeeded, but the start-up after it: " + p2.Clause + ": " + p2.Detail
+			}
+			return ""
+		}
+	}
+	got, prob, recj, recEnd := c16Startup(cc.Cfg, mem, db, meta, cc.L, record, retry)
 	if prob == nil {
 		return got, nil, recj, recEnd
 	}
@@ -642,15 +715,10 @@ func (c *c16Ctx) crashRun(w *c16Run) {
 	fam := w.cfg.family()
 	c.add("journals", 1)
 	c.add(fam+".journals", 1)
-	c.add(fam+".journal_ops_max", 0)
-	c.mu.Lock()
-	if int64(len(j.Ops)) > c.n[fam+".journal_ops_max"] {
-		c.n[fam+".journal_ops_max"] = int64(len(j.Ops))
-		c.n[fam+".journal_mutations_max"] = int64(j.Mutations())
-		c.n[fam+".crash_points_max"] = int64(len(points))
-		c.n[fam+".log_store_writes"] = int64(len(ops))
-	}
-	c.mu.Unlock()
+	// (the driver sums these over the shards: totals over all journals of a family)
+	c.add(fam+".journal_ops", int64(len(j.Ops)))
+	c.add(fam+".journal_mutations", int64(j.Mutations()))
+	c.add(fam+".log_store_writes", int64(len(ops)))
 	c.add(fam+".crash_points", int64(len(points)))
 	var next int64 = -1
 	var stop int32
@@ -851,6 +919,9 @@ func c16Main(run *verifkit.Run, res *verifkit.Result) {
 			continue
 		}
 		for _, cfg := range g {
+			if only := os.Getenv("VERIF_C16_ONLY"); only != "" && !strings.HasPrefix(cfg.name(), only) {
+				continue // development aid: restrict the run to some workloads
+			}
 			if run.Expired() {
 				res.Cap("deadline reached before " + cfg.name())
 				return
